@@ -95,8 +95,8 @@ package objects
 //@   props C02 C03 C19
 //@   modifies nothing
 //@   requires validEnc(b) && validEnc(c) && ccount(b) == ccount(c) && forall(k, 0, len(columns), columns[k] < ccount(b))
-//@   ensures [C19] len(columns) == 0 ==> (result <==> exists(k, 0, ccount(b), cmp3(cell(b, k), cell(c, k)) == -1 && forall(m, 0, k, cmp3(cell(b, m), cell(c, m)) == 0)))
-//@   ensures [C19] len(columns) > 0 ==> (result <==> exists(k, 0, len(columns), cmp3(cell(b, columns[k]), cell(c, columns[k])) == -1 && forall(m, 0, k, cmp3(cell(b, columns[m]), cell(c, columns[m])) == 0)))
+//@   ensures len(columns) == 0 ==> (result <==> exists(k, 0, ccount(b), cmp3(cell(b, k), cell(c, k)) == -1 && forall(m, 0, k, cmp3(cell(b, m), cell(c, m)) == 0)))
+//@   ensures len(columns) > 0 ==> (result <==> exists(k, 0, len(columns), cmp3(cell(b, columns[k]), cell(c, columns[k])) == -1 && forall(m, 0, k, cmp3(cell(b, columns[m]), cell(c, columns[m])) == 0)))
 //@   loop 1 invariant i <= n && n == ccount(b) && len(columns) == 0 && forall(m, 0, i, cmp3(cell(b, m), cell(c, m)) == 0)
 //@   loop 1 decreases n - i
 //@   loop 2 invariant iter <= len(columns) && len(columns) > 0 && forall(m, 0, iter, cmp3(cell(b, columns[m]), cell(c, columns[m])) == 0)
